@@ -2,8 +2,9 @@
    variables BY NAME.  For duplicate-free name tuples and a closure as long as the original
    co_freevars: whatever order CPython gave the factory's co_freevars [ffv],
    - if it succeeds, the cell bound at every position of ffv is the cell the original
-     function had for that same name, ffv only names original free variables, and (when
-     the length check is present) ffv is a permutation of the original free variables;
+     function had for that same name and ffv is a permutation of the original free
+     variables (the length check is what excludes a strict subset: a name shadowed by a
+     factory parameter such as ag__ would otherwise silently get the wrong binding);
    - it succeeds whenever ffv is a permutation of the original free variables;
    - otherwise it raises (KeyError for a foreign name, ValueError for a strict subset):
      it never binds a name to another name's cell. *)
@@ -15,22 +16,17 @@ Theorem closure_by_name : forall cfg, cfg_ok cfg = true ->
   forall (fv : list name) (cl : list nat) (ffv : list name),
   NoDup fv -> NoDup ffv -> length cl = length fv ->
   (forall fc, inst_closure cfg fv cl ffv = Ok fc ->
-     length fc = length ffv /\ incl ffv fv
-     /\ (len_check cfg <> None -> Permutation ffv fv)
+     length fc = length ffv /\ Permutation ffv fv
      /\ (forall n k, In (n, k) (combine ffv fc) ->
            In (n, k) (combine fv cl) /\ forall k', In (n, k') (combine fv cl) -> k' = k))
   /\ (Permutation ffv fv -> exists fc, inst_closure cfg fv cl ffv = Ok fc)
   /\ (~ incl ffv fv -> inst_closure cfg fv cl ffv = Err KeyError)
-  /\ (incl ffv fv -> ~ Permutation ffv fv -> len_check cfg <> None ->
-      inst_closure cfg fv cl ffv = Err ValueError).
+  /\ (incl ffv fv -> ~ Permutation ffv fv -> inst_closure cfg fv cl ffv = Err ValueError).
 Proof.
-  intros cfg OK fv cl ffv ND NDF LEN. repeat split.
-  - destruct (inst_ok cfg OK fv cl ffv NDF LEN fc H) as [A _]; exact A.
-  - destruct (inst_ok cfg OK fv cl ffv NDF LEN fc H) as [_ [A _]]; exact A.
-  - destruct (inst_ok cfg OK fv cl ffv NDF LEN fc H) as [_ [_ [A _]]]; exact A.
-  - destruct (inst_ok cfg OK fv cl ffv NDF LEN fc H) as [_ [_ [_ A]]]; apply A; assumption.
-  - intros k' Hk'. destruct (inst_ok cfg OK fv cl ffv NDF LEN fc H) as [_ [_ [_ A]]].
-    apply (cell_of_name_unique fv cl n k' k ND LEN Hk'). apply A; assumption.
+  intros cfg OK fv cl ffv ND NDF LEN. split; [|split; [|split]].
+  - intros fc H. destruct (inst_ok cfg OK fv cl ffv NDF LEN fc H) as [A [B D]].
+    split; [exact A|]. split; [exact B|]. intros n k Hk. split; [apply D; exact Hk|].
+    intros k' Hk'. apply (cell_of_name_unique fv cl n k' k ND LEN Hk'). apply D; exact Hk.
   - apply inst_perm_succeeds; assumption.
   - apply inst_keyerror; assumption.
   - apply inst_valueerror; assumption.
